@@ -23,6 +23,17 @@ pub const CONTEXTS: [&str; 10] = [
     "Option<(@, HashMap<String, Vec<i32>>)>",
 ];
 
+/// spellings of "derives Serialize/Deserialize"
+pub const DERIVE_STYLES: [&str; 7] = [
+    "#[derive(Debug, Clone, Serialize, Deserialize)]\n",
+    "#[derive(serde::Serialize, serde::Deserialize)]\n",
+    "#[derive(Debug)]\n#[derive(Serialize)]\n#[derive(Deserialize)]\n",
+    "#[derive(Clone, ::serde::Deserialize, Debug, ::serde::Serialize)]\n",
+    "#[derive(Serialize)]\n",
+    "#[derive(Deserialize, PartialEq)]\n",
+    "/// documented\n#[allow(dead_code)]\n#[derive(Default, Serialize, Deserialize)]\n#[serde(rename_all = \"camelCase\")]\n",
+];
+
 #[derive(Debug, Clone, Copy, PartialEq, Eq, Serialize, Deserialize, PartialOrd, Ord)]
 pub enum Root {
     Param,
@@ -45,6 +56,9 @@ pub struct Case {
     pub deviate: Option<(usize, usize)>,
     /// 0: all in one file; 1: one file per node (nested dirs); 2: types in one file, commands in another
     pub layout: usize,
+    /// how the serde derives are spelled (index into DERIVE_STYLES), rotating per node
+    #[serde(default)]
+    pub derive_style: usize,
     pub zod: bool,
 }
 
@@ -68,7 +82,7 @@ impl Case {
         (0..self.n).any(|w| self.mask >> (u * self.n + w) & 1 == 1)
     }
     fn node_def(&self, u: usize) -> String {
-        let derive = "#[derive(Debug, Clone, Serialize, Deserialize)]\n";
+        let derive = DERIVE_STYLES[(self.derive_style + u * (self.derive_style != 0) as usize) % DERIVE_STYLES.len()];
         if self.has_out(u) {
             let mut s = format!("{}pub struct {} {{\n    pub id: i32,\n", derive, node_name(u));
             for (ei, (a, b)) in self.edges().iter().enumerate() {
@@ -127,7 +141,7 @@ impl Case {
                     files.push((path, format!("{}{}", header, self.node_def(u))));
                 }
                 files.push(("src/api.rs".into(), format!("{}{}{}", header, decoys, cmd)));
-                Project { files }
+                Project { files, links: vec![] }
             }
             _ => {
                 let mut s = header.clone();
@@ -135,7 +149,7 @@ impl Case {
                 for u in (0..self.n).rev() {
                     s.push_str(&self.node_def(u));
                 }
-                Project { files: vec![("src/a_commands.rs".into(), format!("{}{}", header, cmd)), ("src/z_types.rs".into(), format!("{}{}", s, decoys))] }
+                Project { files: vec![("src/a_commands.rs".into(), format!("{}{}", header, cmd)), ("src/z_types.rs".into(), format!("{}{}", s, decoys))], links: vec![] }
             }
         }
     }
@@ -263,7 +277,7 @@ pub fn run(tier: Tier) -> CheckResult {
                     if tier == Tier::Quick && zod && (gi + ctx) % 2 == 0 {
                         continue;
                     }
-                    cases.push(Case { n: *n, mask: *mask, root, ctx, deviate: None, layout, zod });
+                    cases.push(Case { n: *n, mask: *mask, root, ctx, deviate: None, layout, derive_style: if (gi + ctx) % 2 == 0 { 0 } else { (gi + ctx + root as usize) % DERIVE_STYLES.len() }, zod });
                 }
             }
             // one edge deviates: for graphs with >= 2 edges, each edge gets each other context once
@@ -271,7 +285,7 @@ pub fn run(tier: Tier) -> CheckResult {
             if n_edges >= 2 && *n <= 3 && (tier == Tier::Thorough || gi % 4 == 0) {
                 for e in 0..n_edges {
                     for c in 1..CONTEXTS.len() {
-                        cases.push(Case { n: *n, mask: *mask, root, ctx: 0, deviate: Some((e, c)), layout: (gi + e) % 3, zod: (gi + e + c) % 2 == 0 });
+                        cases.push(Case { n: *n, mask: *mask, root, ctx: 0, deviate: Some((e, c)), layout: (gi + e) % 3, derive_style: (gi + e + c) % DERIVE_STYLES.len(), zod: (gi + e + c) % 2 == 0 });
                     }
                 }
             }
